@@ -88,6 +88,11 @@ def single_cases(tier, rng):
     import gaps
     for t in gaps.ean_wrap(rng, tier) + gaps.ean_low_byte(rng):
         add(t.encode("utf-8"))
+    for g in gaps.family(rng, tier, ("ean",)):
+        out.append(g)
+    for t in gaps.ean_sums(rng):          # every weighted sum 0..216 / 0..135
+        add(t.encode())
+        add((t + gs1(t)).encode())
     for _ in range(300 if tier == "quick" else 3000):
         n = rng.choice([7, 8, 12, 13])
         add(bytes(rng.choice(b"0123456789") if rng.random() < 0.9 else rng.randrange(256) for _ in range(n)))
